@@ -225,6 +225,31 @@ def check(prop, tier, seed):
                 oracle_fail.append((sc, msg))
                 if len(oracle_fail) >= 3:
                     break
+    # ---- 3b. the same oracle with the (transliterated) compiled kernels importable
+    if oracle is not None and prop in PYX_PROPS and not oracle_fail:
+        from . import pyxrun
+        try:
+            with pyxrun.pyx_backend():
+                for k_, sc in enumerate(scen.scenarios(prop, tier, random.Random(seed * 7919 + 17))):
+                    if k_ % PYX_STRIDE.get(prop, 2):
+                        continue
+                    sc = dict(sc); sc['_backend'] = 'pyx'
+                    oracle_runs += 1
+                    try:
+                        msg = oracle(sc)
+                    except Exception as ex:
+                        msg = '%s oracle could not evaluate the implementation (compiled-kernel configuration): %r' % (prop, ex)
+                    if msg:
+                        kf = known.match(prop, sc, msg, findings)
+                        if kf:
+                            known_hits[kf + '/pyx'] = known_hits.get(kf + '/pyx', 0) + 1
+                            continue
+                        sc.pop('_backend', None)
+                        oracle_fail.append((sc, '[compiled-kernel configuration] ' + msg))
+                        if len(oracle_fail) >= 3:
+                            break
+        except Exception as ex:
+            notes.append('compiled-kernel configuration could not be set up: %r' % ex)
     # ---- 4. known findings
     kf_lines = []
     extra_replays = KNOWN_EXTRA.get(prop)
@@ -293,6 +318,9 @@ def check(prop, tier, seed):
         return 1
     return 0
 
+
+PYX_PROPS = {'C05', 'C07', 'C13', 'C14', 'C18'}
+PYX_STRIDE = {'C07': 3, 'C18': 2}
 
 # hooks filled by other modules (pyx backend, op sequences, …)
 EXTRA = {}
